@@ -14,6 +14,7 @@ import time
 from typing import Any, Dict, List, Optional
 
 from vf import common, sentinel, vclock
+from vf.dispx import bt
 from vf.common import Context, Plan, ShardResult, Violation
 
 LEVELS = {"C14": "fault_enumeration"}
@@ -253,7 +254,7 @@ class Run:
                         run.handler_failures += 1
                         if sc["stop_on_handler_exceptions"] and run.stop_requested_at is None:
                             run.stop_requested_at = vt()
-                        raise Err("job fails")
+                        raise bt.failure("job fails", ji)
                 except asyncio.CancelledError:
                     run.htrace.append((vt(), "job", ji, "cancelled"))
                     raise
@@ -331,7 +332,7 @@ class Run:
                     run.handler_failures += 1
                     if sc["stop_on_handler_exceptions"] and run.stop_requested_at is None:
                         run.stop_requested_at = run.vt()
-                    raise Err("handler fails")
+                    raise bt.failure("handler fails", n + hi)
             except asyncio.CancelledError:
                 run.htrace.append((run.vt(), "h", (pid, hi, e.eid), "cancelled"))
                 raise
